@@ -31,22 +31,33 @@ KF_TEXT = ("RankInvariantChecker.evaluate never returns when the bound of some n
 class Recorder:
     """A user-level decision maker: records every matrix it is asked to evaluate."""
 
-    def __init__(self, inner, drop=None, drop_from=0, drop_until=None):
+    def __init__(self, inner, drop=None, drop_from=0, drop_until=None, reorder=False):
         self.inner, self.drop, self.drop_from, self.drop_until = inner, drop, drop_from, drop_until
+        self.reorder = reorder
         self.seen = []
+
+    def _out(self, res):
+        """The result as it is, or (reorder) listing the alternatives best-first: a ranking may list its
+        alternatives in any order."""
+        if not self.reorder:
+            return res
+        from skcriteria.agg import RankResult
+        vals = np.asarray(res.values)
+        perm = np.argsort(vals, kind="stable")
+        return RankResult(res.method, np.asarray(res.alternatives)[perm], vals[perm], {})
 
     def evaluate(self, dm):
         self.seen.append({"alternatives": [str(a) for a in dm.alternatives],
                           "matrix": dm.matrix.to_numpy(copy=True)})
         call = len(self.seen) - 1
         if self.drop_until is not None and call >= self.drop_until:
-            return self.inner.evaluate(dm)
+            return self._out(self.inner.evaluate(dm))
         if isinstance(self.drop, list):
             if call >= self.drop_from:
                 dm = dm.loc[[a for a in dm.alternatives if a not in self.drop]]
         elif self.drop is not None and call >= self.drop_from and self.drop in dm.alternatives:
             dm = dm.loc[[a for a in dm.alternatives if a != self.drop]]
-        return self.inner.evaluate(dm)
+        return self._out(self.inner.evaluate(dm))
 
 
 def gen_case(rng):
@@ -68,7 +79,10 @@ def gen_case(rng):
             "criteria": gen.labels(rng, m, gen.LABEL_POOL_C, "C", kinds=False),
             "dmaker": rng.choice(["topsis", "ratio", "refpoint"]),
             "repeat": rng.randint(1, 3), "strategy": rng.choice(["median", "mean", "max", "min"]),
-            "seed": rng.choice([0, rng.randint(0, 10 ** 6), rng.randint(0, 10 ** 6), rng.randint(0, 10 ** 6), 2 ** 32 - 1]), "drop": drop, "allow_missing": rng.random() < 0.7 and drop != "first"}
+            "seed": rng.choice([0, rng.randint(0, 10 ** 6), rng.randint(0, 10 ** 6), rng.randint(0, 10 ** 6), 2 ** 32 - 1]), "drop": drop, "allow_missing": rng.random() < 0.7 and drop != "first",
+            # which alternative the decision maker loses (not always the last one), and whether its results list the
+            # alternatives in the matrix's order or best-first
+            "drop_pos": rng.randrange(n) if rng.random() < 0.5 else -1, "reorder": rng.random() < 0.3}
 
 
 def experiment(case, via_copy=False):
@@ -77,12 +91,12 @@ def experiment(case, via_copy=False):
     dm = I.mk(case)
     drop_alt = None
     if case["drop"]:
-        drop_alt = case["alternatives"][-1]
+        drop_alt = case["alternatives"][case.get("drop_pos", -1)]
     if case["drop"] == "two":
         drop_alt = list(case["alternatives"][-2:])
     rec = Recorder(M.make({"name": case["dmaker"]}), drop=drop_alt,
                    drop_from=0 if case["drop"] in ("every", "first") else 2,
-                   drop_until=1 if case["drop"] == "first" else None)
+                   drop_until=1 if case["drop"] == "first" else None, reorder=bool(case.get("reorder")))
     strat = {"median": "median", "mean": "mean", "max": np.max, "min": np.min}[case["strategy"]]
     chk = RankInvariantChecker(rec, repeat=case["repeat"], last_diff_strategy=strat, random_state=case["seed"],
                                allow_missing_alternatives=case["allow_missing"])
@@ -232,8 +246,9 @@ def zero_bound_predicted(case):
     from .. import methods as M
     try:
         dm = I.mk(case)
-        drop_alt = case["alternatives"][-1] if case["drop"] else None
-        rec = Recorder(M.make({"name": case["dmaker"]}), drop=drop_alt, drop_from=0 if case["drop"] == "every" else 2)
+        drop_alt = case["alternatives"][case.get("drop_pos", -1)] if case["drop"] else None
+        rec = Recorder(M.make({"name": case["dmaker"]}), drop=drop_alt, drop_from=0 if case["drop"] == "every" else 2,
+                       reorder=bool(case.get("reorder")))
         strat = {"median": "median", "mean": "mean", "max": np.max, "min": np.min}[case["strategy"]]
         chk = RankInvariantChecker(rec, repeat=case["repeat"], last_diff_strategy=strat, random_state=case["seed"],
                                    allow_missing_alternatives=case["allow_missing"])
